@@ -25,7 +25,7 @@ Proof.
   intros W s l s' j WF R S P. pose proof (reachable_inv W s WF R) as I.
   destruct (ext_step _ WF I S) as (_ & ST). destruct (ST j) as (A & B & C & _).
   pose proof (l_A (I_loc I j) P) as F.
-  split; [|split; auto]. destruct (st (jobs s j)); simpl in F; try discriminate; [apply A|apply B]; auto.
+  split; [|split; auto]. destruct (st (jobs s j)); simpl in F; try discriminate; [apply A|apply B]; reflexivity.
 Qed.
 
 Theorem final_absorbing : forall W ls s s' j, wf W = true -> reachable W s -> steps W s ls = Some s' ->
@@ -170,11 +170,9 @@ Proof.
   apply (l_RT (I_loc (reachable_inv W s WF R) k) P).
 Qed.
 
-(* (while a process left by an earlier run is still running for a dependency, a failure of one of
-   that dependency's own inputs shows it as ERROR for a while: hence the hypothesis on the dependencies) *)
 Theorem independent_unaffected : forall W s j r, wf W = true -> reachable W s ->
   pc (jobs s j) = PReturned r -> j_marker (spec W j) = false -> adopted W j = None ->
-  (forall k, In (DJob k) (deps W j) -> st (jobs s k) = DONE /\ adopted W k = None) ->
+  (forall k, In (DJob k) (deps W j) -> st (jobs s k) = DONE) ->
   launches (jobs s j) = 1%nat /\ r = code_state (j_code (spec W j)).
 Proof.
   intros W s j r WF R P M AD A. pose proof (reachable_inv W s WF R) as I.
@@ -184,7 +182,7 @@ Proof.
   - exfalso. assert (X : r = ERROR).
     { apply E. intros D. rewrite <- RT in D. destruct (l_L0 (I_loc I j) LA D) as [(_ & Y)|Y]; congruence. }
     assert (FD : fdep (jobs s j) = true) by (apply (l_E (I_loc I j)); congruence).
-    destruct (I_FD I j FD) as (k & Dk & [Ek|Ek]); destruct (A k Dk) as (A1 & A2); congruence.
+    destruct (I_FD I j FD) as (k & Dk & Ek). rewrite (A k Dk) in Ek. discriminate.
   - split; auto. destruct (l_L2 (I_loc I j) LA) as (_ & [X|(_ & X)]); [rewrite P in X; discriminate|congruence].
 Qed.
 
@@ -193,7 +191,7 @@ Lemma wst_check : forall W fx s j i, wst (check W fx s j i) = wst s /\ unfinishe
   /\ failed (check W fx s j i) = failed s.
 Proof.
   intros. unfold check. destruct (nth_error (deps W j) i); auto.
-  destruct (check_l (fx3 fx) (jobs s j) i (dep_status s d)) as [r w]. destruct w; auto.
+  destruct (check_l (fx3 fx) (fx6 fx) (jobs s j) i (dep_status s d)) as [r w]. destruct w; auto.
 Qed.
 Lemma wst_commit : forall s j p, wst (commit s j p) = wst s /\ unfinished (commit s j p) = unfinished s.
 Proof. intros. unfold commit. destruct (snd p); auto. Qed.
@@ -208,7 +206,7 @@ Lemma wst_step : forall W s l s', step W s l = Some s' ->
 Proof.
   intros W s l s' H. unfold step in H. destruct l as [j|n|j|]; simpl in H.
   - destruct ((j <? njobs W)%nat && match pc (jobs s j) with PNot => true | _ => false end
-              && forallb (dep_submitted s) (deps W j)); [|discriminate].
+              && forallb (dep_submitted s) (deps W j) && fits W j); [|discriminate].
     inversion H; subst s'. left. unfold submit. simpl.
     destruct (reg s (j_ident (spec W j))); [destruct (st (jobs s n))|]; reflexivity.
   - destruct (nth_error (queue s) n) as [c|]; [|discriminate]. inversion H; subst s'. clear H.
